@@ -190,7 +190,7 @@ func c09(c *ctx) {
 	}
 	// callbacks
 	for _, rej := range []string{"onrequest", "onhost", "onheader", "onbefore", "negotiate"} {
-		for _, st := range []int{0, 403, 401, 400, 500, 503} {
+		for _, st := range []int{0, -1, 403, 401, 400, 500, 503} {
 			for _, variant := range []string{"allok", "nohost", "badupgrade", "noextra", "http10"} {
 				q := base
 				q.Extra = variant != "noextra"
@@ -203,7 +203,7 @@ func c09(c *ctx) {
 				case "http10":
 					q.Version = "1.0"
 				}
-				cf := scfg{Reject: rej, RejectStatus: st, ExtMode: "none", ExtraHeader: st%2 == 1}
+				cf := scfg{Reject: rej, RejectStatus: st, ExtMode: "none", ExtraHeader: st%2 != 0}
 				if rej == "negotiate" {
 					cf.ExtMode = "negotiate"
 					emit(fmt.Sprintf("cb/HTTPUpgrader/%s/%d/%s", rej, st, variant), "HTTPUpgrader", q, cf)
